@@ -51,14 +51,15 @@ type c37Pattern struct {
 	WarmReqs  int      `json:"warm_requests"`
 	PrePhases []int    `json:"pre_phases"` // stalled ping bursts that are drained afterwards
 	Stalled   bool     `json:"stalled"`
-	GoAway    string   `json:"goaway,omitempty"` // "", "graceful" (server shutting down, GOAWAY(NO_ERROR)), "error" (provoked connection error)
-	Segs      []c37Seg `json:"segments"`         // relative weights; scaled to the flood size
+	Download  string   `json:"download,omitempty"` // "", "big" (2 MiB response, split per max frame size), "drip" (window 1, one-byte WINDOW_UPDATEs)
+	GoAway    string   `json:"goaway,omitempty"`   // "", "graceful" (server shutting down, GOAWAY(NO_ERROR)), "error" (provoked connection error)
+	Segs      []c37Seg `json:"segments"`           // relative weights; scaled to the flood size
 	Probe     int      `json:"probe_every"`
 }
 
 func (p c37Pattern) enc() string {
 	var sb strings.Builder
-	fmt.Fprintf(&sb, "%d/%d/%d/%v/%v/%d/%s/", p.S2CCap, p.WarmPings, p.WarmReqs, p.PrePhases, p.Stalled, p.Probe, p.GoAway)
+	fmt.Fprintf(&sb, "%d/%d/%d/%v/%v/%d/%s/", p.S2CCap, p.WarmPings, p.WarmReqs, p.PrePhases, p.Stalled, p.Probe, p.GoAway+"/"+p.Download)
 	for _, s := range p.Segs {
 		fmt.Fprintf(&sb, "%s:%d:%d,", s.Kind, s.Count, s.Arg)
 	}
@@ -90,6 +91,15 @@ func c37Gen(rt *rapid.T) c37Pattern {
 		p.PrePhases = append(p.PrePhases, rapid.SampledFrom([]int{1, 50, 3000, 9000}).Draw(rt, fmt.Sprintf("pre%d", i)))
 	}
 	p.Stalled = rapid.IntRange(0, 7).Draw(rt, "stalled") != 0
+	p.Download = rapid.SampledFrom([]string{"", "", "", "", "big", "drip", "drip"}).Draw(rt, "download")
+	// downloads through a tiny socket buffer mean one goroutine hand-off per byte: only cost, no
+	// additional behaviour of the write scheduler
+	if p.Download == "big" && p.S2CCap < 65536 {
+		p.Download = "drip"
+	}
+	if p.Download == "drip" && p.S2CCap < 4096 {
+		p.Download = ""
+	}
 	p.GoAway = rapid.SampledFrom([]string{"", "", "", "", "graceful", "graceful", "error"}).Draw(rt, "goaway")
 	shape := rapid.IntRange(0, 5).Draw(rt, "shape")
 	switch {
@@ -130,6 +140,18 @@ type c37Frame struct {
 }
 
 func c37Run(rt tbx, rec *ev.Rec, p c37Pattern) {
+	switch os.Getenv("H2B_C37_DOWNLOAD") { // development aid (timing comparison, one variant alone)
+	case "none":
+		p.Download = ""
+	case "drip":
+		if p.Download == "big" {
+			p.Download = "drip"
+		}
+	}
+	if p.Download != "" {
+		// the counter drift a faulty scheduler could accumulate is small (one per split): probe densely
+		p.Probe = 53
+	}
 	classes := map[string]bool{}
 	nt := p.Stalled
 	kindsIn := map[string]bool{}
@@ -155,6 +177,9 @@ func c37Run(rt tbx, rec *ev.Rec, p c37Pattern) {
 	if p.GoAway != "" {
 		classes["goaway-before-flood:"+p.GoAway] = true
 	}
+	if p.Download != "" {
+		classes["download-before-flood:"+p.Download] = true
+	}
 	done := func() { rec.Case(p.enc(), nt, keys(classes)...) }
 	fail := func(key string, w map[string]any, format string, args ...any) {
 		done()
@@ -163,7 +188,14 @@ func c37Run(rt tbx, rec *ev.Rec, p c37Pattern) {
 	}
 
 	// bfe's GracefulShutdownTimeout is configurable up to 300 s; the flood takes well under a second
-	r, err := startRig(rigOpts{S2CCap: p.S2CCap, Graceful: 120 * time.Second})
+	var settings []uint32
+	switch p.Download {
+	case "big":
+		settings = []uint32{0x4, 1 << 30} // SETTINGS_INITIAL_WINDOW_SIZE
+	case "drip":
+		settings = []uint32{0x4, 1}
+	}
+	r, err := startRig(rigOpts{S2CCap: p.S2CCap, Graceful: 120 * time.Second, Settings: settings})
 	if err != nil {
 		rt.Skipf("C37: %v", err)
 	}
@@ -217,6 +249,49 @@ func c37Run(rt tbx, rec *ev.Rec, p c37Pattern) {
 		if !expectAlive("warm-up request") {
 			return
 		}
+	}
+	// ---- a flow-controlled download, read completely: the response DATA has to be split by
+	// the server's write scheduler (per max frame size, or per one-byte window increments)
+	if p.Download != "" {
+		id := nextID
+		nextID += 2
+		body := 2 << 20 // 128 frames of 16 KiB
+		if p.Download == "big" {
+			r.cli.write(rawFrame(fWindowUpdate, 0, 0, u32(1<<30-65535)))
+		} else {
+			body = 400
+		}
+		r.cli.write(headersFrames(id, hpackLiteral([][2]string{{":method", "GET"}, {":scheme", "https"}, {":path", "/download"}, {":authority", "h2b.test"}, {"x-sid", fmt.Sprint(id)}}), true, nil, -1, 0))
+		sid := fmt.Sprint(id)
+		if !r.h.waitFor(func() bool { return r.h.bySID[sid] != nil }) {
+			rt.Skipf("C37: watchdog waiting for download handler")
+		}
+		r.h.get(sid).release <- hAction{Body: body}
+		if p.Download == "drip" {
+			var wu []byte
+			for i := 0; i < body; i++ {
+				wu = append(wu, rawFrame(fWindowUpdate, 0, id, u32(1))...)
+			}
+			r.cli.write(wu)
+		}
+		scanned, got := 0, 0
+		if !r.cli.waitFor(func() bool {
+			for ; scanned < len(r.cli.frames); scanned++ {
+				if f := &r.cli.frames[scanned]; f.SID == id && f.Typ == fData {
+					got += f.Len
+					if f.EndStream {
+						return true
+					}
+				}
+			}
+			return r.cli.rerr != nil || r.cli.errGoAwayLocked() != nil
+		}) {
+			rt.Skipf("C37: watchdog waiting for the download")
+		}
+		if !expectAlive("download (" + p.Download + ")") {
+			return
+		}
+		rec.Add("download_bytes", int64(got))
 	}
 	// a stream closed by the client's own RST_STREAM, target of the data-closed kind
 	closedID := nextID
@@ -422,6 +497,9 @@ func c37Run(rt tbx, rec *ev.Rec, p c37Pattern) {
 	if p.GoAway != "" {
 		dom += "/after-" + p.GoAway + "-goaway"
 	}
+	if p.Download != "" {
+		dom += "/after-" + p.Download + "-download"
+	}
 	if serverClosed {
 		classes["outcome:closed"] = true
 	} else {
@@ -487,6 +565,8 @@ func TestC37(t *testing.T) {
 		}
 	}
 	if kinds != nil {
+		c37Run(t, rec, c37Pattern{S2CCap: 65536, WarmPings: 1, Stalled: true, Download: "big", Segs: []c37Seg{{Kind: "ping", Count: 1}}, Probe: 97})
+		c37Run(t, rec, c37Pattern{S2CCap: 4096, WarmPings: 1, Stalled: true, Download: "drip", Segs: []c37Seg{{Kind: "ping", Count: 1}}, Probe: 53})
 		for _, ga := range []string{"graceful", "error"} {
 			if os.Getenv("H2B_C37_ONLY_ERROR_GOAWAY") != "" && ga != "error" { // development aid
 				continue
